@@ -1,3 +1,3 @@
 SPECIFICATION Spec
 CONSTANT DoEmit = FALSE
-INVARIANTS TypeOK NoUnauthenticatedHandler OnlyPublic MutatingNeedsMethodAndJSON PublicReachable AuthServed
+INVARIANTS TypeOK StoreAgrees NoResurrection NoUnauthenticatedHandler OnlyPublic MutatingNeedsMethodAndJSON PublicReachable AuthServed
